@@ -3,7 +3,7 @@
 From Coq Require Import List Arith Bool.
 From M Require Import Base Flat Hsm HsmSpec.
 From P Require Import HsmForest HsmResolve HsmOffer MonadP CrashGen HsmExec.
-From P Require HsmIff HsmDecl HsmReach HsmTotal HsmOrder HsmPar HsmParCor.
+From P Require HsmIff HsmDecl HsmReach HsmTotal HsmOrder HsmPar HsmParCor HsmTotalCor.
 Import ListNotations.
 
 (* ---------- transition resolution ---------- *)
@@ -212,6 +212,19 @@ Theorem C03_history_no_internal_error :
       HsmTotal.good hm (snd (HsmTotal.run_seq hm ev c es p f)).
 Proof. exact HsmTotal.history_total. Qed.
 Print Assumptions C03_history_no_internal_error.
+
+(* ... and stated from the start: every configuration reached from the one add_model creates, through any events under
+   any callbacks (reach), is one from which a trigger with non-raising callbacks returns a boolean or raises the
+   invalid-trigger error, and leads to such a configuration again *)
+Theorem C03_no_internal_error_reachable :
+  forall (hm : hmachine) (ev : env) (c : ctx) (e : event) (p : nat) (f : forest) tr f' r,
+    (forall cb q, r_raise (ev cb q) = None) -> HsmReach.wf_defs hm = true -> HsmTotal.dst_ok hm = true ->
+    HsmTotalCor.reachable0 hm f -> Hsm.trigger_event hm ev c e p f = (tr, f', r) ->
+    HsmTotalCor.reachable0 hm f' /\
+    (forall x, r = inl x -> (x = MachineError \/ x = AttributeError) /\ hm_on_exception hm = [] /\
+                            ~ HsmDecl.declares hm e f).
+Proof. exact HsmTotalCor.no_internal_error_reachable. Qed.
+Print Assumptions C03_no_internal_error_reachable.
 
 (* non-vacuity: the machine of KF-C03-1 below meets the decidable hypotheses *)
 Example C03_no_internal_error_nonvacuous :
